@@ -12,8 +12,28 @@ from props import shapegen as S, engine, fontkit as K, cmapgen
 BASE = 'general.ttf'
 
 
+def gen_growth_program(rng, gl):
+    """insert-heavy programs: every rule inserts in front of every item and most step the cursor back, so that a few passes use up the
+    insert budget of 64 slots per character (the machine dies and gr_make_seg fails) or end a pass above it"""
+    prog = []
+    alpha = rng.sample(gl, rng.randrange(2, 4))
+    for _ in range(rng.choice((2, 3, 3))):
+        rules = []
+        for _ in range(rng.randrange(1, 3)):
+            ln = rng.randrange(1, 4)
+            pat = [set(alpha) if rng.random() < 0.7 else set(rng.sample(alpha, 1)) for _ in range(ln)]
+            acts = [([('I', rng.choice(alpha))] if rng.random() < 0.85 else [('G', rng.choice(alpha))]) for _ in range(ln)]
+            if rng.random() < 0.15 and ln > 1:
+                acts[rng.randrange(ln)] = [('D',)]
+            rules.append(dict(pre=0, pat=pat, acts=acts, con=None, ret=rng.choice((0, 0, -1, -1, -2, -3))))
+        prog.append(dict(maxloop=rng.choice((2, 3, 5, 8)), rules=rules, alpha=alpha))
+    return prog, len(prog)
+
+
 def gen_program(rng, gl):
     """gl: glyph ids reachable from the keyboard"""
+    if rng.random() < 0.12:
+        return gen_growth_program(rng, gl)
     prog = []
     for _ in range(rng.choice((1, 1, 2, 3))):
         pre = rng.choice((0, 0, 1, 2))
@@ -127,7 +147,7 @@ def run(chk):
         text = K.prog_to_text(prog)
         alpha = sorted(set(g for ps in prog for g in ps['alpha']))
         for t in range(8 if thorough else 6):
-            n = rng.choice((1, 2, 3, 5, 8, 12))
+            n = rng.choice((1, 2, 3, 5, 8, 12)) if len(prog) != nsub or any(ps['maxloop'] not in (2, 3, 5, 8) or len(ps['alpha']) > 3 for ps in prog) or t > 4 else rng.choice((1, 1, 2, 2, 3))
             gids = [rng.choice(alpha) if rng.random() < 0.85 else rng.choice(gl) for _ in range(n)]
             cid = 'q%d.%d' % (k, t)
             cases.append(S.case_line(cid, p, [inv[g] for g in gids], 32, ops=('dump', 'udump')))
@@ -142,15 +162,20 @@ def run(chk):
         t = i.split()
         if 'ABORT' in t[1:3]:
             chk.violation('c06:abort:%s' % text[:100], 'shaping with a compiled GDL-lite font aborted: %s' % i[:300], dict(case=c, model_case=mc, got=i[:800], program=text)); continue
-        if t[1] in ('NOFACE', 'NULLSEG'):
+        if t[1] == 'NOFACE':
             stats[t[1]] = stats.get(t[1], 0) + 1
-            if t[1] == 'NOFACE':
-                chk.tie_break('compiler', 'the engine rejects a font compiled by fontkit: %s' % text[:300], c[:300])
+            chk.tie_break('compiler', 'the engine rejects a font compiled by fontkit: %s' % text[:300], c[:300])
             continue
-        d = S.parse_dump(' '.join(i.split(' | ')[0].split()[1:]))
-        us = (i.split(' | U', 1)[1].split(' | ')[0].split() if ' | U' in i else [])
-        got = 'adv=%d ' % int(float(d['adv'].split(',')[0])) + ';'.join('%d,%d,%d,%d,%s,%s' % (int(s[0]), int(float(s[10])), int(float(s[8])), int(float(s[9])), s[5], (us[k] if k < len(us) else '?').replace(',', '/'))
-                                                                        for k, s in enumerate(d['slots']))
+        if t[1] == 'NULLSEG':
+            # gr_make_seg failed: the machine died on an exhausted insert budget, or a substitution pass ended with more than 64 slots per character
+            stats['NULLSEG'] = stats.get('NULLSEG', 0) + 1
+            d = dict(slots=[])
+            got = 'DIED'
+        else:
+            d = S.parse_dump(' '.join(i.split(' | ')[0].split()[1:]))
+            us = (i.split(' | U', 1)[1].split(' | ')[0].split() if ' | U' in i else [])
+            got = 'adv=%d ' % int(float(d['adv'].split(',')[0])) + ';'.join('%d,%d,%d,%d,%s,%s' % (int(s[0]), int(float(s[10])), int(float(s[8])), int(float(s[9])), s[5], (us[k] if k < len(us) else '?').replace(',', '/'))
+                                                                            for k, s in enumerate(d['slots']))
         exp = m.split(' R ', 1)[1] if ' R ' in m else '?'
         stats['compared'] = stats.get('compared', 0) + 1
         classes.add((text.count('/'), text.count(';') > 2, len(d['slots']), 'D' in text, 'I' in text, 'S' in text, 'T' in text, any(s[5] != '-1' for s in d['slots']), got == exp))
@@ -159,7 +184,7 @@ def run(chk):
                           dict(case=c, model_case=mc, got=i[:1500], program=text, font_gz_b64=blob(fp)))
     shutil.rmtree(tmp, ignore_errors=True)
     chk.notes.append('programs x strings: %s' % sorted(stats.items()))
-    chk.cov.update(evaluations=len(cases), distinct_nontrivial=len(classes), disagreements_checked=ndis, distribution={BASE: len(cases)},
+    chk.cov.update(evaluations=len(cases), distinct_nontrivial=len(classes), disagreements_checked=ndis, distribution=dict(stats, **{BASE: len(cases)}),
                    rule='random GDL-lite programs: 1-3 passes, uniform pre-context 0..2, 1-6 rules of length <= 5 over a 3-8 glyph alphabet (overlapping sets, so several rules match at a position and sort keys / rule order '
                         'decide), optional constraint on the advance of one item (also of pre-context items, also on values set by an earlier pass), actions put_glyph / put_subs / put_copy (with references to earlier, later and own items) / delete / insert / advance / shift / user attributes, constraints on advances or user attributes, followed by 0-2 positioning passes whose rules attach items to earlier or later items (re-attachment, cycles refused), set attach / with points, shifts and advances; each compiled to a font and run on 6-8 glyph strings of 1-12 glyphs; '
                         'glyph ids, advances, attachment parents, user attributes, design-unit origins (x, y) and the segment advance compared with the extracted reference (final positions through the positioning model of C15); non-trivial = distinct (#passes, many rules, output length, uses delete / insert / subs, verdict)',
